@@ -21,6 +21,11 @@ ops: the ops of `Drv/Router.lean` (`A`, `R`, `G`, `W`, `D`, `N`) and
   `V|verb|path|env`        a request through `Ombott.__call__`, hooks observed
         → `ran:<handler>:<method>:<kwargs>:<fired>` | `404` | `404h:<hook>:<arg>:<values>` | `405:<allow>`
           fired = `hook@arg,…`
+  `FS|paths|methods|env`   model-side comparison of the edited router with `Router.fresh` (the
+                           router rebuilt from its survivors, `Model/RouterEdit.lean` section 11):
+                           answers and delivered hooks for the paths, every name, the routes index
+                           → `same` | `diff:<what>`; on the implementation side the edited
+                           application is compared with one rebuilt from the survivors
 `<methods>` of a route = `METHOD=handler,…` sorted.
 -/
 namespace Drv.RouterEdit
@@ -77,8 +82,44 @@ def noMarker (cenv : CompileEnv) (rule : Str) : Bool :=
     | .ok p => noLitTok p.syms
     | .error _ => true
 
+/-- hits with handler, method, kwargs and hooks; 404 / 405 by status and `Allow` -/
+def showAnswer : Resolved → String
+  | .found h m kw hooks => s!"hit:{h}:{hexStr m}:{showKwargs kw}:{showHooks hooks}"
+  | .notFound .. => "404"
+  | .notAllowed a => s!"405:{hexStr a}"
+  | .fault => "fault"
+
+def showNameView (R : Router) (nm : Str) : String :=
+  match R.byName nm with
+  | some id => showRoute R id
+  | none => "none"
+
+/-- first difference between the edited router and the one rebuilt from its survivors -/
+def freshDiff (R : Router) (env : FilterEnv) (paths : List Str) (ms : List Str) : Option String :=
+  let F := R.fresh
+  let d1 := paths.findSome? fun p =>
+    let a := showAnswer (R.resolve env p ms)
+    let b := showAnswer (F.resolve env p ms)
+    if a == b then none else some s!"path:{hexStr p}:{a}:{b}"
+  let d2 := (R.named.map (·.1)).findSome? fun nm =>
+    let a := showNameView R nm
+    let b := showNameView F nm
+    if a == b then none else some s!"name:{hexStr nm}:{a}:{b}"
+  let d3 :=
+    if sortStrs (R.routes.map (·.1)) == sortStrs (F.routes.map (·.1)) &&
+        sortStrs (R.named.map (·.1)) == sortStrs (F.named.map (·.1)) then none
+    else some "indexes"
+  d1.orElse fun _ => d2.orElse fun _ => d3
+
 def stepOp (st : St) (idx : Nat) (op : String) : Option (St × String) :=
   match splitBar op with
+  | ["FS", paths, methods, env] => do
+    let env ← parseEnv env
+    let ms := unhexStrList methods
+    if ms.isEmpty then none
+    pure (st, match freshDiff st.R (envOf env) (unhexStrList paths) ms with
+      | none => "same"
+      | some d => "diff:" ++ d)
   | ["X", rule, cerr] => do
     let cenv := cenvOf (← parseCerr cerr)
     let rule := unhexStr rule
